@@ -488,6 +488,7 @@ def replay(pid, path):
     with open(path) as f:
         rec = json.load(f)
     case = rec.get("case", rec)
+    case.setdefault("id", "replay")
     print("replaying %s case %s against %s" % (pid, case.get("id"), REPO))
     ctx = run_one(prop, case, verbose=True)
     print("counters:", dict(ctx.counters))
